@@ -17,6 +17,6 @@ func (a *AllValuesRequestPlanner) Process(ctx *shared.PlannerContext) (sql.ISele
 		From(sql.NewRawObject(ctx.TracesKVDistTable)).
 		AndWhere(
 			sql.Ge(sql.NewRawObject("date"), sql.NewStringVal(clickhouse_planner.FormatFromDate(ctx.From))),
-			sql.Le(sql.NewRawObject("date"), sql.NewStringVal(clickhouse_planner.FormatFromDate(ctx.To))),
+			sql.Le(sql.NewRawObject("date"), sql.NewStringVal(ctx.To.UTC().Format("2006-01-02"))),
 			sql.Eq(sql.NewRawObject("key"), sql.NewStringVal(a.Key))), nil
 }
